@@ -3,10 +3,12 @@
    four fixed regular expressions, _filtered_dir, _expand_path, register,
    get_source_id, task-level de-duplication).  Spec: Spec/Catalog.v. *)
 From Coq Require Import String ZArith List Bool.
-From SK Require Import Model.Skel Model.Stm Model.SequenceSk Gen.SkelTree.
+From SK Require Import Model.Skel Model.Stm Model.SequenceSk Model.CallCount
+     Proofs.CallCount Gen.SkelTree.
 From SK Require Import Model.Collection Model.Catalog Spec.Catalog
      Proofs.CatalogStr Proofs.CatalogDir Proofs.CatalogReg
-     Proofs.CatalogBoundary Proofs.CatalogTop Gen.Params Gen.XCatalog.
+     Proofs.CatalogBoundary Proofs.CatalogTop Proofs.CatalogTags Gen.Params
+     Gen.XCatalog.
 Import ListNotations.
 Open Scope Z_scope.
 Open Scope list_scope.
@@ -345,6 +347,58 @@ Theorem C09_sort_and_expand_from_source :
   x_task_line_loop_over_search_defs = true.
 Proof. repeat split; reflexivity. Qed.
 
+(* ---- round 3: FileSearcher.add / files / resolve_source_id and the
+   catalog's lookup methods, regenerated from the source *)
+Local Open Scope string_scope.
+Theorem C09_fs_add_shape :
+  tk_fs_add = [SIf [SEv (Call "restrict")] []; SEv (Call "register")].
+Proof. vm_compute. reflexivity. Qed.
+
+(* on EVERY execution path of FileSearcher.add the catalog's register() is
+   called at most once, and so is the restriction bookkeeping *)
+Theorem C09_fs_add_registers_once : forall t,
+  trl tk_fs_add t ->
+  (count (is_call "register") t <= 1)%nat /\
+  (count (is_call "restrict") t <= 1)%nat.
+Proof.
+  intros t H. split; apply (count_bounded_list _ _ _ _ H);
+    vm_compute; reflexivity.
+Qed.
+
+Theorem C09_catalog_lookup_shapes :
+  calls_only_list tk_resolve_from_tag =
+    [SLoop [SEv (Call "resolve_from_id"); SEv (Call "append")]; SExit] /\
+  calls_only_list tk_resolve_from_id = [SIf [SExit] []; SExit] /\
+  calls_only_list tk_source_id_to_path =
+    [STry [SExit] [("KeyError", [])] [] []; SExit].
+Proof. repeat split; vm_compute; reflexivity. Qed.
+Local Close Scope string_scope.
+
+(* the restriction set of the model is the source's test (`not
+   allow_global_constraints`) plugged into the set insertion; after any
+   history of add() calls it holds exactly the definitions ever added with
+   allow_global_constraints=False, each once *)
+Theorem C09_fs_add_restrictions : forall ops,
+  (forall r allow d,
+     (if x_fs_add_restricts allow
+      then (if existsb (Z.eqb d) r then r else r ++ [d]) else r)
+     = fs_restrict r allow d) /\
+  NoDup (fs_restrictions ops) /\
+  (forall d, In d (fs_restrictions ops) <-> In (d, false) ops).
+Proof.
+  intro ops. split; [reflexivity|]. exact (fs_restrictions_spec ops).
+Qed.
+
+Theorem C09_lookup_statements_from_source :
+  x_fs_files_are_entry_paths = true /\
+  x_fs_resolve_source_delegates = true /\
+  x_resolve_from_id_simple_then_sequence = true /\
+  x_resolve_from_tag_maps_tag_table = true /\
+  x_source_id_unknown_is_none = true /\
+  x_catalog_iterates_entries = true /\
+  x_searcher_base_is_abstract = true.
+Proof. repeat split; reflexivity. Qed.
+
 Print Assumptions C09_filtered_dir_sound_complete.
 Print Assumptions C09_expand_path_exact.
 Print Assumptions C09_grouped_key_is_number.
@@ -353,3 +407,6 @@ Print Assumptions C09_whitespace_boundary.
 Print Assumptions C09_merge_once.
 Print Assumptions C09_each_match_once.
 Print Assumptions C09_rotated_means.
+Print Assumptions C09_fs_add_registers_once.
+Print Assumptions C09_fs_add_restrictions.
+Print Assumptions C09_catalog_lookup_shapes.
